@@ -383,6 +383,7 @@ func c12Run(t *testing.T, sc c12Scenario, c *vsched.Chooser) vsched.Outcome {
 		if passivated {
 			_ = Tell(ctx, x, new(c12Msg))
 			_ = sys.Kill(ctx, "X")
+			_ = x.Shutdown(ctx) // a caller that still holds the PID
 			stopping = true
 		}
 		time.Sleep(c12T + 1)
